@@ -664,35 +664,36 @@ def ob_light(method, tier="quick", w=2):
     iw = proxies.get_iw()
 
     class SpecBackend:
-        """contract of BackendVSA's public query methods (what ob_query proves of the private ones)"""
+        """contract of BackendVSA's public query methods (what ob_query proves of the private ones), with the public signatures of
+        claripy.backends.backend.Backend (extra constraints are ignored by this backend: ignoring a constraint only over-approximates)"""
         def _maybe_refuse(self):
             if cur().choose([True, True], "backend-refuses") == 1:
                 raise BackendError("refused")
 
-        def eval(self, e, n):
+        def eval(self, e, n, extra_constraints=(), solver=None, model_callback=None):
             self._maybe_refuse()
             return e.val.eval(n)
 
-        def min(self, e, signed=False):
+        def min(self, e, extra_constraints=(), signed=False, solver=None, model_callback=None):
             self._maybe_refuse()
             return e.val.min(signed=signed)
 
-        def max(self, e, signed=False):
+        def max(self, e, extra_constraints=(), signed=False, solver=None, model_callback=None):
             self._maybe_refuse()
             return e.val.max(signed=signed)
 
-        def solution(self, e, v):
+        def solution(self, e, v, extra_constraints=(), solver=None, model_callback=None):
             self._maybe_refuse()
             # may answer False only if the two share no value
             share = (e.val._mask & v.val._mask) != 0
             return cur().choose([z3.Not(share), True], "solution-answer") == 1
 
-        def is_true(self, e):
+        def is_true(self, e, extra_constraints=(), solver=None, model_callback=None):
             self._maybe_refuse()
             # may answer True only if the expression is true under every assignment
             return e.always and cur().choose([True, True], "is_true-answer") == 0
 
-        def is_false(self, e):
+        def is_false(self, e, extra_constraints=(), solver=None, model_callback=None):
             self._maybe_refuse()
             return e.never and cur().choose([True, True], "is_false-answer") == 0
 
@@ -818,3 +819,52 @@ def ob_canary(tier="quick"):
         c.check("canaries/all-fail", not bad, "canaries that did not fail: " + "; ".join(bad))
         return "ok"
     return explore(body, _opts(tier))
+
+
+def replay_light(task, failure):
+    """native: the real SolverVSA (LightFrontend over the real VSA backend) on every well-formed strided interval of 3 bits, plus an expression
+    the VSA backend refuses (SDiv): eval / min / max (both signednesses) / solution must not exclude a member; a refusal must surface as
+    ClaripyFrontendError, never as an answer.  The obligation's own counterexample is over the backend's CONTRACT and has no native form;
+    this searches the real stack for an input with the same failing clause."""
+    import logging
+    import claripy
+    from claripy.errors import ClaripyFrontendError
+    from vf.bounded.si_enum import all_intervals, _members
+    logging.getLogger("claripy").setLevel(logging.CRITICAL)
+    m = (task.get("kwargs") or {}).get("method") or task["id"].split(".")[1].split("/")[0]
+    w = 3
+    sg = lambda v: v - (1 << w) if v >> (w - 1) else v
+    s = claripy.SolverVSA()
+    for (lb, ub, st) in all_intervals(w, wrapping=False):
+        mem = sorted(_members(lb, ub, st, w))
+        e = claripy.SI(bits=w, stride=st, lower_bound=lb, upper_bound=ub)
+        try:
+            if m in ("min", "max"):
+                for signed in (False, True):
+                    r = getattr(s, m)(e, signed=signed)
+                    vals = [sg(v) for v in mem] if signed else mem
+                    best = min(vals) if m == "min" else max(vals)
+                    if (m == "min" and r > best) or (m == "max" and r < best):
+                        return {"reproduced": True, "text": f"SolverVSA().{m}(SI(bits={w},stride={st},lower_bound={lb},upper_bound={ub}), signed={signed}) = {r}; members {vals}"}
+            elif m == "eval":
+                for n in (1, 2, 8):
+                    r = [v % (1 << w) for v in s.eval(e, n)]
+                    if any(v not in mem for v in r) or (len(r) < n and set(r) != set(mem)):
+                        return {"reproduced": True, "text": f"SolverVSA().eval({st}[{lb},{ub}]@{w}, {n}) = {r}; members {mem}"}
+            elif m == "solution":
+                for v in mem:
+                    if not s.solution(e, claripy.BVV(v, w)):
+                        return {"reproduced": True, "text": f"SolverVSA().solution({st}[{lb},{ub}]@{w}, {v}) is False; {v} is a member"}
+        except ClaripyFrontendError:
+            continue
+    if m in ("solution", "eval", "min", "max"):
+        x, y = claripy.BVS("x", 8), claripy.BVS("y", 8)
+        try:
+            r = s.solution(x.SDiv(y), 3) if m == "solution" else getattr(s, m)(x.SDiv(y), *((2,) if m == "eval" else ()))
+            if m == "solution" and not r:
+                return {"reproduced": True, "text": "SolverVSA().solution(x SDiv y, 3) is False although the backend cannot evaluate the expression (x=21, y=7 gives 3)"}
+        except ClaripyFrontendError:
+            pass
+        except Exception as ex:  # noqa
+            return {"reproduced": True, "text": f"SolverVSA().{m}(x SDiv y): {type(ex).__name__}: {ex} instead of ClaripyFrontendError"}
+    return {"reproduced": False, "text": "no native reproducer found at 3 bits"}
